@@ -447,6 +447,16 @@ func flagTestBlock(b *ssa.BasicBlock) ([]*bool, bool, bool) {
 		}
 		break
 	}
+	// an enumeration instead of a boolean: `outcome := undecided; select { case …: outcome = x }; if outcome != undecided {…}`
+	var cmp *ssa.BinOp
+	var cmpK *ssa.Const
+	if bin, ok := v.(*ssa.BinOp); ok && bin.Block() == b && (bin.Op == token.EQL || bin.Op == token.NEQ) {
+		if k, ok := bin.Y.(*ssa.Const); ok && k.Value != nil && k.Value.Kind() == constant.Int {
+			if _, isPhi := bin.X.(*ssa.Phi); isPhi {
+				cmp, cmpK, v = bin, k, bin.X
+			}
+		}
+	}
 	phi, ok := v.(*ssa.Phi)
 	if !ok || phi.Block() != b {
 		return nil, false, false
@@ -458,6 +468,10 @@ func flagTestBlock(b *ssa.BasicBlock) ([]*bool, bool, bool) {
 			if x.Op != token.NOT {
 				return nil, false, false
 			}
+		case *ssa.BinOp:
+			if x != cmp {
+				return nil, false, false
+			}
 		default:
 			return nil, false, false
 		}
@@ -465,7 +479,19 @@ func flagTestBlock(b *ssa.BasicBlock) ([]*bool, bool, bool) {
 	consts := make([]*bool, len(phi.Edges))
 	any := false
 	for i, e := range phi.Edges {
-		if k, ok := e.(*ssa.Const); ok && k.Value != nil && k.Value.Kind() == constant.Bool {
+		k, ok := e.(*ssa.Const)
+		if !ok || k.Value == nil {
+			continue
+		}
+		if cmp != nil {
+			if k.Value.Kind() == constant.Int {
+				bv := constant.Compare(k.Value, token.EQL, cmpK.Value) == (cmp.Op == token.EQL)
+				consts[i] = &bv
+				any = true
+			}
+			continue
+		}
+		if k.Value.Kind() == constant.Bool {
 			bv := constant.BoolVal(k.Value)
 			consts[i] = &bv
 			any = true
